@@ -143,11 +143,6 @@ def push (length : Nat) (hist : List V) (v : V) : List V :=
 
 inductive RFault (E : Type) | none | kill (i k : Nat) | intr (i : Nat) (e : E)
 
-def RFault.at : RFault E → Nat → Bool
-  | .none, _ => false
-  | .kill i _, j => i == j
-  | .intr i _, j => i == j
-
 inductive End (E : Type)
   | closed                  -- the consumer stopped asking
   | stopped                 -- StopIteration (stop marker)
@@ -210,17 +205,14 @@ def compute (c : RecCfg V L E) (rc : RunCfg E) (hist : List V) (idx : Nat) : Nat
     | .fin r => r
     | .cont x fs' => (compute c rc hist idx n (i+1) fs').cons x 1
 
-/-- the reading part of the loop (lines 362-380); `hist` is the truncated history so far -/
+/-- the reading part of the loop (lines 362-380); `hist` is the truncated history so far.  A fault of the run only
+strikes where something is computed or written, i.e. never while cached items are read. -/
 def iterate (c : RecCfg V L E) (rc : RunCfg E) : Nat → Nat → List V → Files → RunOut V L E
   | 0, _, _, fs => ⟨[], .closed, none, none, 0, fs⟩
   | n+1, i, hist, fs =>
     match c.pk.load (fs i) with
-    | .ok (.item l v) =>
-      if rc.fault.at i then ⟨[], (match rc.fault with | .intr _ e => .interrupted e | _ => .killed), none, none, 0, fs⟩
-      else (iterate c rc n (i+1) (push c.length hist v) fs).cons (v, l) 0
-    | .ok (.stop l) =>
-      if rc.fault.at i then ⟨[], (match rc.fault with | .intr _ e => .interrupted e | _ => .killed), none, none, 0, fs⟩
-      else ⟨[], .stopped, some l, none, 0, fs⟩
+    | .ok (.item l v) => (iterate c rc n (i+1) (push c.length hist v) fs).cons (v, l) 0
+    | .ok (.stop l) => ⟨[], .stopped, some l, none, 0, fs⟩
     | .error e =>
       if c.caught e then
         { compute c rc hist i (n+1) i fs with resumed := some (hist, i) }
